@@ -141,6 +141,8 @@ class Registry:
         self.specs = {}
         self.aliases = {}          # short type name -> Type factory
         self.externals = {}        # qualified name of a library function -> python model callable
+        self.external_objects = {}  # real library object -> python model callable
+        self.inline = set()
         self._types = {}
 
     # -- types -----------------------------------------------------------------------------
@@ -172,6 +174,12 @@ class Registry:
         if ts == "dict":
             from .dicts import TDict
             return TDict()
+        if ts in ("arr1", "arr2", "arr", "arr1b", "arr2b"):
+            from .arrays import TArr
+            return TArr({"arr1": "1", "arr2": "2", "arr": "?", "arr1b": "1", "arr2b": "2"}[ts], "bool" if ts.endswith("b") else "num")
+        if ts == "list[arr1]":
+            from .arrays import TArrList
+            return TArrList()
         if ts.startswith("list[") and ts.endswith("]"):
             return TList(self.type(ts[5:-1]))
         opt = ts.endswith("?")
